@@ -14,13 +14,12 @@ from decimal import Decimal
 from lib import common
 from lib.common import enc_list, dec_list
 
-KEYS_T = [1, 2, 3, None]
-KEYS_S = [1, 2, 3, 4, None]
-ATOMS = ["tx=0", "tx=1", "tx<2", "tv>=20", "sy=0", "sy!=0", "sy>=2", "sy<5", "T"]
-ATOMS_S = ["sy=0", "sy!=0", "sy>=2", "sy<5", "T"]
+SHAPES = [  # (number of key columns, target non-key columns, source non-key columns)
+    (1, 2, 1), (1, 2, 1), (2, 2, 2), (1, 3, 2),
+]
 
 
-def _rpn_sql(rpn: list[str], t: str, s: str) -> str:
+def _rpn_sql(rpn: list[str], t: str, s: str, col) -> str:
     st = []
     for tok in rpn:
         if tok == "T":
@@ -31,10 +30,14 @@ def _rpn_sql(rpn: list[str], t: str, s: str) -> str:
         elif tok == "!":
             st.append(f"(NOT {st.pop()})")
         else:
-            col = {"tx": f"{t}.x", "tv": f"{t}.v", "sy": f"{s}.y"}[tok[:2]]
-            rest = tok[2:]
+            side, rest = tok[0], tok[1:]
+            i = 0
+            while rest[i].isdigit():
+                i += 1
+            idx, rest = int(rest[:i]), rest[i:]
             op = ">=" if rest.startswith(">=") else "!=" if rest.startswith("!=") else rest[0]
-            st.append(f"{col} {op.replace('!=', '<>')} {rest[len(op):]}")
+            name = f"{t()}.{col('c' + str(idx))}" if side == "t" else f"{s()}.{col('d' + str(idx))}"
+            st.append(f"{name} {op.replace('!=', '<>')} {rest[len(op):]}")
     assert len(st) == 1
     return st[0]
 
@@ -44,54 +47,93 @@ def _recase(rnd, s: str) -> str:
 
 
 def _render(case, rnd) -> str:
+    nk, ntc, nsc = case["shape"]
     kw = (lambda x: _recase(rnd, x)) if case["recase"] else (lambda x: x)
     # unquoted identifiers are re-spelled per occurrence too (quoted style keeps the stored upper-case names)
     idc = (lambda x: x if x.startswith('"') or x.startswith("(") else _recase(rnd, x)) if case["recase"] else (lambda x: x)
     t, s = (lambda: idc(case["tname"])), (lambda: idc(case["sname"]))
     col = idc
-    parts = [f"{kw('merge into')} {t()} {kw('using')} {idc(case['source_sql'])} {kw('on')} {t()}.{col('k')} = {s()}.{col('k')}"]
+    on = f" {kw('and')} ".join(f"{t()}.{col('k' + str(j))} = {s()}.{col('k' + str(j))}" for j in range(nk))
+    parts = [f"{kw('merge into')} {t()} {kw('using')} {idc(case['source_sql'])} {kw('on')} {on}"]
+
+    def rhs(r):
+        return f"{s()}.{col('d' + r[1:])}" if r[0] == "s" else r[1:]
+
     for c in case["clauses"]:
-        kind, rpn = c.split(":")
-        toks = rpn.split(",")
-        cond = "" if toks == ["T"] and case["omit_true"] else f" {kw('and')} {_rpn_sql(toks, t(), s())}"
+        f = c.split(":")
+        kind, toks = f[0], f[1].split(",")
+        cond = "" if toks == ["T"] and case["omit_true"] else f" {kw('and')} {_rpn_sql(toks, t, s, col)}"
         if kind == "D":
             parts.append(f"{kw('when matched')}{cond} {kw('then delete')}")
         elif kind == "U":
-            parts.append(f"{kw('when matched')}{cond} {kw('then update set')} {col('v')} = {s()}.{col('y')}")
+            sets = []
+            for a in f[2].split(","):
+                j, r = a.split("=")
+                lhs = col("c" + j)
+                if rnd.random() < 0.3:
+                    lhs = f"{t()}.{lhs}"
+                sets.append(f"{lhs} = {rhs(r)}")
+            parts.append(f"{kw('when matched')}{cond} {kw('then update set')} {', '.join(sets)}")
         else:
-            parts.append(f"{kw('when not matched')}{cond} {kw('then insert')} ({col('k')}, {col('x')}, {col('v')}) {kw('values')} "
-                         f"({s()}.{col('k')}, 0, {s()}.{col('y')})")
+            names = [col("k" + str(j)) for j in range(nk)] + [col("c" + str(j)) for j in range(ntc)]
+            vals = [f"{s()}.{col('k' + str(j))}" for j in range(nk)] + [rhs(r) for r in f[2].split(",")]
+            order = list(range(len(names)))
+            if case["permute_insert"]:
+                random.Random(case["render_seed"] + 7).shuffle(order)
+            parts.append(f"{kw('when not matched')}{cond} {kw('then insert')} ({', '.join(names[i] for i in order)}) {kw('values')} "
+                         f"({', '.join(vals[i] for i in order)})")
     return "\n  ".join(parts)
 
 
 def _gen_case(rnd: random.Random, i: int) -> dict:
+    nk, ntc, nsc = rnd.choice(SHAPES)
+    t_atoms = [f"t{j}{op}" for j in range(ntc) for op in ("=0", "=1", "<2", ">=20", "!=1")]
+    s_atoms = [f"s{j}{op}" for j in range(nsc) for op in ("=0", "!=0", ">=2", "<5")] + ["T"]
+
     def cond(atoms):
         r = rnd.random()
-        if r < 0.55:
+        if r < 0.3:
+            return ["T"]
+        if r < 0.65:
             return [rnd.choice(atoms)]
-        if r < 0.8:
-            return [rnd.choice(atoms), rnd.choice(atoms), rnd.choice("&|")]
-        if r < 0.9:
-            return [rnd.choice(atoms), "!"]
-        return ["T"]
+        if r < 0.88:
+            return [rnd.choice(atoms), rnd.choice(atoms), rnd.choice("&||")]
+        return [rnd.choice(atoms), "!"]
+
+    def rhs():
+        return f"s{rnd.randrange(nsc)}" if rnd.random() < 0.75 else f"c{rnd.choice([0, 1, 7, 42])}"
+
     ncl = rnd.choice([1, 2, 2, 3, 3, 4])
     clauses = []
     for _ in range(ncl):
         k = rnd.choice("DUUI")
-        clauses.append(f"{k}:{','.join(cond(ATOMS_S if k == 'I' or rnd.random() < 0.45 else ATOMS))}")
+        cnd = ",".join(cond(s_atoms if k == "I" or rnd.random() < 0.45 else t_atoms + s_atoms))
+        if k == "D":
+            clauses.append(f"D:{cnd}")
+        elif k == "U":
+            cols = rnd.sample(range(ntc), rnd.randint(1, ntc))
+            clauses.append(f"U:{cnd}:" + ",".join(f"{j}={rhs()}" for j in cols))
+        else:
+            clauses.append(f"I:{cnd}:" + ",".join(rhs() for _ in range(ntc)))
+    keyvals = [1, 2, 3] if nk == 1 else [1, 2]
+    allkeys = [tuple(k) for k in itertools.product(keyvals, repeat=nk)]
     mode = rnd.random()
-    nt, ns = rnd.choice([0, 1, 2, 3, 3, 4, 4, 5, 6]), rnd.choice([0, 1, 2, 2, 3, 3, 4, 5])
+    nt = 0 if rnd.random() < 0.05 else rnd.choice([1, 2, 3, 3, 4, 4, 5, 6])
+    ns = 0 if rnd.random() < 0.05 else rnd.choice([1, 2, 2, 3, 3, 4, 5])
+
+    def uniq(n):
+        ks = rnd.sample(allkeys, min(n, len(allkeys)))
+        return ks + [None] * (1 if n > len(allkeys) else 0)
     if mode < 0.45:   # unique keys on both sides (always inside H1c ∧ H2)
-        tk = rnd.sample(KEYS_T[:3], min(nt, 3)) + [None] * (1 if nt > 3 else 0)
-        sk = rnd.sample(KEYS_S[:4], min(ns, 4)) + [None] * (1 if ns > 4 else 0)
+        tk, sk = uniq(nt), uniq(ns)
     elif mode < 0.85:  # duplicate target keys, unique source keys (H1c holds, H2 depends on the conditions)
-        tk = [rnd.choice(KEYS_T) for _ in range(nt)]
-        sk = rnd.sample(KEYS_S[:4], min(ns, 4)) + [None] * (1 if ns > 4 else 0)
+        tk = [rnd.choice(allkeys + [None]) for _ in range(nt)]
+        sk = uniq(ns)
     else:              # anything (often non-deterministic -> out of scope)
-        tk = [rnd.choice(KEYS_T) for _ in range(nt)]
-        sk = [rnd.choice(KEYS_S) for _ in range(ns)]
-    tgt = [(k, rnd.choice([0, 1, 2]), 10 * (j + 1)) for j, k in enumerate(tk)]
-    src = [(k, rnd.choice([0, 1, 2, 5, 7])) for k in sk]
+        tk = [rnd.choice(allkeys + [None]) for _ in range(nt)]
+        sk = [rnd.choice(allkeys + [None]) for _ in range(ns)]
+    tgt = [(k, tuple([rnd.choice([0, 1, 2])] + [10 * (j + 1) + c for c in range(ntc - 1)])) for j, k in enumerate(tk)]
+    src = [(k, tuple(rnd.choice([0, 1, 2, 5, 7]) for _ in range(nsc))) for k in sk]
     style = rnd.choice(["plain", "plain", "qualified-target", "schema-target", "subquery", "quoted", "plain", "qualified-source"])
     tname, sname, source_sql = "t", "s", "s"
     if style == "qualified-target":
@@ -101,12 +143,12 @@ def _gen_case(rnd: random.Random, i: int) -> dict:
     elif style == "qualified-source":
         sname = source_sql = rnd.choice(["db1.s1.s", "s1.s"])
     elif style == "subquery":
-        source_sql = "(select k, y from s) as s"
+        source_sql = "(select * from s) as s"
     elif style == "quoted":
         tname, sname, source_sql = '"T"', '"S"', '"S"'
-    return {"id": i, "clauses": clauses, "tgt": tgt, "src": src, "style": style, "tname": tname, "sname": sname,
+    return {"id": i, "shape": (nk, ntc, nsc), "clauses": clauses, "tgt": tgt, "src": src, "style": style, "tname": tname, "sname": sname,
             "source_sql": source_sql, "recase": rnd.random() < 0.5, "omit_true": rnd.random() < 0.7,
-            "render_seed": rnd.randrange(1 << 30)}
+            "permute_insert": rnd.random() < 0.3, "render_seed": rnd.randrange(1 << 30)}
 
 
 def _num(v):
@@ -117,16 +159,28 @@ def _num(v):
     return repr(v)
 
 
+def _flat(row, nk):
+    k, vals = row
+    return tuple((None,) * nk if k is None else k) + tuple(vals)
+
+
+def _sortkey(r):
+    return tuple((v is None, v) for v in r)
+
+
 def _exec_case(conn, case) -> dict:
     from snowflake.connector.cursor import DictCursor
+    nk, ntc, nsc = case["shape"]
     cur = conn.cursor()
-    cur.execute("create or replace table t (k int, x int, v int)")
-    cur.execute("create or replace table s (k int, y int)")
+    tcols = [f"k{j}" for j in range(nk)] + [f"c{j}" for j in range(ntc)]
+    scols = [f"k{j}" for j in range(nk)] + [f"d{j}" for j in range(nsc)]
+    cur.execute(f"create or replace table t ({', '.join(c + ' int' for c in tcols)})")
+    cur.execute(f"create or replace table s ({', '.join(c + ' int' for c in scols)})")
     val = lambda v: "NULL" if v is None else str(v)  # noqa: E731
     if case["tgt"]:
-        cur.execute("insert into t values " + ",".join(f"({val(k)},{x},{v})" for k, x, v in case["tgt"]))
+        cur.execute("insert into t values " + ",".join("(" + ",".join(val(v) for v in _flat(r, nk)) + ")" for r in case["tgt"]))
     if case["src"]:
-        cur.execute("insert into s values " + ",".join(f"({val(k)},{y})" for k, y in case["src"]))
+        cur.execute("insert into s values " + ",".join("(" + ",".join(val(v) for v in _flat(r, nk)) + ")" for r in case["src"]))
     sql = _render(case, random.Random(case["render_seed"]))
     out = {"sql": sql}
     dcur = conn.cursor(DictCursor)
@@ -136,10 +190,10 @@ def _exec_case(conn, case) -> dict:
         out["status"] = [{k: _num(v) for k, v in r.items()} for r in rows]
     except Exception as e:
         out["error"] = f"{type(e).__name__}: {str(e)[:200]}"
-    cur.execute("select k, x, v from t")
-    out["t"] = sorted(cur.fetchall(), key=lambda r: tuple((v is None, v) for v in r))
-    cur.execute("select k, y from s")
-    out["s"] = sorted(cur.fetchall(), key=lambda r: tuple((v is None, v) for v in r))
+    cur.execute("select * from t")
+    out["t"] = sorted(cur.fetchall(), key=_sortkey)
+    cur.execute("select * from s")
+    out["s"] = sorted(cur.fetchall(), key=_sortkey)
     cur.execute("show tables")
     out["tables"] = sorted(r[1] for r in cur.fetchall() if not r[1].startswith("_fs_"))
     return out
@@ -156,19 +210,23 @@ def _worker(shard):
     return res
 
 
+def _enc_row(r) -> str:
+    k, vals = r
+    return ("N" if k is None else ",".join(map(str, k))) + "|" + ",".join(map(str, vals))
+
+
 def _line(case) -> str:
-    k = lambda v: "N" if v is None else str(v)  # noqa: E731
-    return "\t".join(["merge", "run", enc_list(case["clauses"]),
-                      enc_list([f"{k(a)}.{x}.{v}" for a, x, v in case["tgt"]]),
-                      enc_list([f"{k(a)}.{y}" for a, y in case["src"]])])
+    return "\t".join(["merge", "run", enc_list(case["clauses"]), enc_list([_enc_row(r) for r in case["tgt"]]),
+                      enc_list([_enc_row(r) for r in case["src"]])])
 
 
-def _rows(s: str):
+def _rows(s: str, nk: int):
     out = []
     for r in dec_list(s):
-        k, x, v = r.split(".")
-        out.append((None if k == "N" else int(k), int(x), int(v)))
-    return sorted(out, key=lambda r: tuple((v is None, v) for v in r))
+        k, v = r.split("|")
+        key = (None,) * nk if k == "N" else tuple(int(x) for x in k.split(","))
+        out.append(key + tuple(int(x) for x in v.split(",")))
+    return sorted(out, key=_sortkey)
 
 
 COLS = ["number of rows inserted", "number of rows updated", "number of rows deleted"]
@@ -188,17 +246,19 @@ def _judge(chk, case, real, m) -> None:
     ops = "".join(c[0] for c in case["clauses"])
     chk.count("clauses:" + ops)
     chk.count("style:" + case["style"])
+    chk.count("shape:" + "/".join(map(str, case["shape"])))
     chk.count("region:" + finding)
     nontrivial = bool(case["tgt"]) and bool(case["src"]) and finding != "out-of-scope:nondeterministic"
-    chk.case((tuple(case["clauses"]), tuple(case["tgt"]), tuple(case["src"]), case["style"]), nontrivial=nontrivial)
+    chk.case((tuple(case["clauses"]), tuple(case["tgt"]), tuple(case["src"]), case["style"], tuple(case["shape"])), nontrivial=nontrivial)
     if finding.startswith("out-of-scope"):
         return
-    spec_t, impl_t = _rows(m["spec"]), _rows(m["impl"])
+    nk = case["shape"][0]
+    spec_t, impl_t = _rows(m["spec"], nk), _rows(m["impl"], nk)
     sc, ic = _counts(m["scount"]), _counts(m["icount"])
-    src0 = sorted(case["src"], key=lambda r: tuple((v is None, v) for v in r))
+    src0 = sorted((_flat(r, nk) for r in case["src"]), key=_sortkey)
     desc = f"{real['sql']!r} over t={case['tgt']} s={case['src']}"
     if "error" in real and case["style"] == "qualified-source" and real["error"].startswith("ParseError") and \
-            [tuple(r) for r in real["t"]] == sorted(case["tgt"], key=lambda r: tuple((v is None, v) for v in r)):
+            [tuple(r) for r in real["t"]] == sorted((_flat(r, case["shape"][0]) for r in case["tgt"]), key=_sortkey):
         chk.finding("C12/qualified-source-name", f"MERGE with a qualified source table name raised {real['error'][:60]!r}: {real['sql']!r}", case)
         return
     if "error" in real:
@@ -308,26 +368,35 @@ def _variants(chk) -> None:
 
 
 def _small_exhaustive(chk) -> list[dict]:
-    """all targets of ≤2 rows / sources of ≤2 rows over 2 keys+NULL with 2 clause lists — thorough only"""
+    """all targets of ≤2 rows / sources of ≤2 rows over 2 keys+NULL with 4 clause lists — thorough only"""
     cases = []
     i = 10_000_000
-    trows = [(k, x, 10) for k in (1, 2, None) for x in (0, 1)]
-    srows = [(k, y) for k in (1, 2, None) for y in (0, 5)]
-    cls = [["D:tx=0", "U:T", "I:T"], ["U:sy=0", "D:T", "I:sy!=0"], ["I:T", "D:sy=5"], ["U:tx=1", "D:tx=0"]]
+    trows = [((k,) if k else None, (x, 10)) for k in (1, 2, None) for x in (0, 1)]
+    srows = [((k,) if k else None, (y,)) for k in (1, 2, None) for y in (0, 5)]
+    cls = [["D:t0=0", "U:T:1=s0", "I:T:c0,s0"], ["U:s0=0:1=s0", "D:T", "I:s0!=0:c0,s0"], ["I:T:c0,s0", "D:s0=5"], ["U:t0=1:1=s0", "D:t0=0"]]
     for nt in range(3):
         for tg in itertools.combinations_with_replacement(trows, nt):
             for ns in range(3):
                 for sr in itertools.combinations_with_replacement(srows, ns):
                     for cl in cls:
                         i += 1
-                        cases.append({"id": i, "clauses": cl, "tgt": list(tg), "src": list(sr), "style": "plain", "tname": "t",
-                                      "sname": "s", "source_sql": "s", "recase": False, "omit_true": True, "render_seed": 1})
+                        cases.append({"id": i, "shape": (1, 2, 1), "clauses": cl, "tgt": list(tg), "src": list(sr), "style": "plain",
+                                      "tname": "t", "sname": "s", "source_sql": "s", "recase": False, "omit_true": True,
+                                      "permute_insert": False, "render_seed": 1})
     return cases
+
+
+def _norm_case(c: dict) -> dict:
+    c = dict(c)
+    c["shape"] = tuple(c["shape"])
+    c["tgt"] = [(tuple(k) if k is not None else None, tuple(v)) for k, v in c["tgt"]]
+    c["src"] = [(tuple(k) if k is not None else None, tuple(v)) for k, v in c["src"]]
+    return c
 
 
 def run(chk) -> None:
     rnd = random.Random(chk.seed)
-    n = 800 if chk.tier == "quick" else 12000
+    n = 600 if chk.tier == "quick" else 12000
     cases = [_gen_case(rnd, i) for i in range(n)]
     if chk.tier != "quick":
         cases += _small_exhaustive(chk)
@@ -338,9 +407,7 @@ def run(chk) -> None:
     for f in sorted((common.CORPUS / "C12").glob("*.json")):
         c = json.loads(f.read_text())
         if "clauses" in c:
-            c["tgt"] = [tuple(r) for r in c["tgt"]]
-            c["src"] = [tuple(r) for r in c["src"]]
-            corpus.append(c)
+            corpus.append(_norm_case(c))
     cases = corpus + cases
     chk.rule = ("random MERGE statements of the modelled shape: 1-4 clauses (DELETE/UPDATE/INSERT) with conditions over target and/or source "
                 "columns, targets of 0-6 rows and sources of 0-5 rows over 3-4 keys + NULL (unique, duplicate-target and arbitrary key modes), "
@@ -356,7 +423,7 @@ def run(chk) -> None:
                 raise common.Infra(f"model rejected case: {m}")
             _judge(chk, case, real, m)
     _variants(chk)
-    chk.samples = [{"clauses": c["clauses"], "tgt": c["tgt"], "src": c["src"], "style": c["style"]} for c in cases[:6]]
+    chk.samples = [{"shape": c["shape"], "clauses": c["clauses"], "tgt": c["tgt"], "src": c["src"], "style": c["style"]} for c in cases[:7]]
     chk.trusted += ["modelled engine: DuckDB FULL OUTER JOIN / CASE / DELETE USING / UPDATE FROM / INSERT SELECT / COUNT_IF semantics "
                     "(Fs.Merge.cands, mutate, implCount) — exercised by this correspondence, not proved",
                     "MERGE semantics transcribed from the Snowflake documentation (Fs.Merge.spec)"]
@@ -365,13 +432,10 @@ def run(chk) -> None:
 
 
 def replay(chk, case) -> None:
-    case = dict(case)
-    if "tgt" in case:
-        case["tgt"] = [tuple(r) for r in case["tgt"]]
-        case["src"] = [tuple(r) for r in case["src"]]
     if "variant" in case:
         _variants(chk)
         return
+    case = _norm_case(case)
     real = _worker([case])[0]
     m = common.batch([_line(case)])[0]
     _judge(chk, case, real, m)
